@@ -38,12 +38,17 @@ def _n_sites(node):
     return max((len(R.visited()) for _, _, R in first), default=0)
 
 
-def make_cases(prop, kinds, tier, seed, progs, bounds=None):
+def make_cases(prop, kinds, tier, seed, progs, bounds=None, wide_args=False):
     def mk(node):
         def run(ctx):
             from ..bfs import Explorer
 
-            ex = Explorer(ctx, node, tier, seed, {prop}, kinds=kinds, bounds=bounds)
+            b = dict(bounds or {})
+            if wide_args and node.depth() <= 1 and tier == "quick":
+                # three argument tuples and every argument change for the shallow programs (e.g. both
+                # flag values of a mask, both branches of a switch)
+                b.setdefault("args", 3)
+            ex = Explorer(ctx, node, tier, seed, {prop}, kinds=kinds, bounds=b or None, all_arg_changes=wide_args)
             ex.run()
 
         return run
